@@ -382,6 +382,56 @@ def part_access(ctx, shard):
 
 
 # ---- part 3: constructors -------------------------------------------------------------------------------------
+
+# ---- converting calls on units that are already the target system's own unit (shortcut branches) -------------------------
+OWN_UNIT_CALLS = [
+    ("A", "in_mks"), ("A", "in_base"), ("T", "in_mks"), ("C", "in_mks"), ("V", "in_mks"), ("ohm", "in_mks"),
+    ("statA", "in_cgs"), ("G", "in_cgs"), ("statC", "in_cgs"), ("G", "in_base-cgs"), ("statV", "in_cgs"),
+    ("K", "in_mks"), ("kg", "in_mks"), ("m", "in_mks"), ("g", "in_cgs"), ("s", "in_cgs"), ("cm", "in_base-cgs"), ("rad", "in_base"),
+    ("J", "in_mks"), ("erg", "in_cgs"), ("N", "in_base"), ("dyn", "in_cgs"), ("ft", "in_base-imperial"), ("lb", "in_base-imperial"),
+    ("kpc", "in_base-galactic"), ("Msun", "in_base-galactic"),
+]  # fmt: skip
+
+
+def part_own_unit(ctx, shard):
+    """every converting call returns independent data - also when nothing has to be converted"""
+    world.reset_world()
+    for unit, call in shard:
+        for shape, dtype in itertools.product([(), (3,), (2, 3)], ("float64", "int64", "float32")):
+            data = data_for(shape, dtype)
+            for vname in ("base", "slice"):
+                if shape == () and vname != "base":
+                    continue
+                parent = unyt_quantity(data[()], unit) if shape == () else unyt_array(data.copy(), unit)
+                a = parent if vname == "base" else parent[::-1]
+                before = np.array(np.asarray(parent.d), copy=True)
+                ctx.count("evaluations")
+                try:
+                    if call.startswith("in_base-"):
+                        r = a.in_base(call.split("-")[1])
+                    else:
+                        r = getattr(a, call)()
+                except Exception:  # noqa: BLE001
+                    ctx.count("own_unit_call_refused")
+                    continue
+                ctx.decided(("own-unit", unit, call, shape, dtype, vname))
+                case = {"part": "own-unit", "unit": unit, "call": call, "shape": list(shape), "dtype": dtype, "view": vname}
+                base = f"C16|own-unit|call={call.split('-')[0]}|unit-kind={'em' if unit in ('A', 'T', 'C', 'V', 'ohm', 'statA', 'G', 'statC', 'statV') else 'plain'}"
+                if r is a or r is parent:
+                    ctx.violation(base + "|mode=returned-its-input", case, "new object", "same object")
+                    continue
+                m = class_rule(r)
+                if m:
+                    ctx.violation(base + "|mode=" + m, case, None, type(r).__name__)
+                if r.size and np.shares_memory(np.asarray(r), np.asarray(parent)):
+                    ctx.violation(base + "|mode=copy-shares-memory", case, False, True)
+                    continue
+                if r.size:
+                    np.asarray(r.d)[...] = 0  # writing into the result ...
+                    if not np.array_equal(np.asarray(parent.d), before):  # ... never reaches the parent
+                        ctx.violation(base + "|mode=write-through-result-reached-the-parent", case, before.tolist(), np.asarray(parent.d).tolist())
+
+
 def part_construct(ctx, shard):
     world.reset_world()
     m, cm, km = Unit("m"), Unit("cm"), Unit("km")
@@ -538,6 +588,33 @@ def part_results_catalog(ctx, shard):
 UF_SHAPES = [(), (1,), (3,), (2, 3)]
 
 
+def part_results_misc(ctx, shard):
+    """properties and operator branches that build their result by hand"""
+    world.reset_world()
+    for unit in shard:
+        for sh in UF_SHAPES + [(1, 1), (0,)]:
+            d = (np.arange(int(np.prod(sh)) if sh else 1, dtype=float) + 1.5).reshape(sh)
+            x = unyt_quantity(d[()], unit) if sh == () else unyt_array(d, unit)
+            calls = [
+                ("ua", lambda: x.ua), ("unit_array", lambda: x.unit_array), ("uq", lambda: x.uq), ("unit_quantity", lambda: x.unit_quantity),
+                ("pow0", lambda: x**0), ("pow0.0", lambda: x**0.0), ("np.power0", lambda: np.power(x, 0)), ("pow1", lambda: x**1), ("pow-int-array0", lambda: x ** np.int64(0)),
+                ("abs", lambda: abs(x)), ("neg", lambda: -x), ("pos", lambda: +x), ("round", lambda: round(x) if sh == () else np.round(x)),
+                ("divmod0", lambda: divmod(x, x)[0]), ("divmod1", lambda: divmod(x, x)[1]), ("floordiv", lambda: x // x), ("mod", lambda: x % x),
+                ("rtruediv", lambda: 2.0 / x), ("rmul-list", lambda: [2.0] * 1 * x if sh != () else 2.0 * x), ("sum-builtin", lambda: sum(x) if sh not in ((), (0,)) else x),
+                ("min-builtin", lambda: min(x) if len(sh) == 1 and sh[0] else x), ("dot-method", lambda: x.dot(x) if len(sh) == 1 else x), ("std", lambda: x.std() if sh != (0,) else x),
+                ("prod", lambda: x.prod() if sh != (0,) else x), ("cumsum", lambda: x.cumsum()), ("clip", lambda: x.clip(x.min(), x.max()) if sh != (0,) else x),
+                ("item-via-index", lambda: x[(0,) * len(sh)] if sh and 0 not in sh else x), ("iter-first", lambda: next(iter(x)) if sh and 0 not in sh else x),
+                ("copy", lambda: x.copy()), ("deepcopy", lambda: __import__("copy").deepcopy(x)), ("pickle", lambda: __import__("pickle").loads(__import__("pickle").dumps(x))),
+                ("quantity-ctor-bypass", lambda: unyt_quantity(np.asarray(x.d), x.units, bypass_validation=True)),
+                ("quantity-ctor-bypass-from-unyt", lambda: unyt_quantity(x, x.units, bypass_validation=True)),
+                ("quantity-ctor", lambda: unyt_quantity(np.asarray(x.d), str(x.units))), ("quantity-ctor-from-unyt", lambda: unyt_quantity(x)),
+                ("to", lambda: x.to(x.units)), ("in_base", lambda: x.in_base()), ("to_equivalent", lambda: x.to_equivalent(x.units, "spectral") if False else x),
+            ]
+            _run_calls(ctx, "misc", unit, (sh,), calls)
+
+
+
+
 def part_results_ufunc(ctx, shard):
     world.reset_world()
     import unyt.array as ua
@@ -651,6 +728,8 @@ def run(ctx):
     ufs = sorted((f for f in ua.unyt_array._ufunc_registry if isinstance(f, np.ufunc)), key=lambda f: f.__name__)
     harness.pmap(ctx, part_results_ufunc, [ufs[i::16] for i in range(16)])
     harness.pmap(ctx, part_results_gufunc, [[n] for n in ("matmul", "vecdot", "matvec", "vecmat")])
+    harness.pmap(ctx, part_results_misc, [["m"], ["dimensionless"], ["degC"], ["km/s"]])
+    harness.pmap(ctx, part_own_unit, [[x] for x in OWN_UNIT_CALLS])
     return {
         "coverage": {
             "rule": "index: shape x dtype x index form (x second index form) executed on the unyt array and on its bare data; "
